@@ -111,7 +111,7 @@ def scenarios(tier, seed=0):
     q = tier == "quick"
     for si, (sn, ss) in enumerate(soils.items()):
         for di, dz in enumerate(DZS):
-            if ss["type"] == "ac_TunisLocal" and dz != "d12":
+            if ss["type"] == "ac_TunisLocal" and dz not in ("d12", "deep30"):   # the built-in soil brings its own grid; a list passed anyway is ignored
                 continue
             for zi, z in enumerate(ZMAX):
                 for ki, kind in enumerate(IWCS):
@@ -166,7 +166,7 @@ def run(scn):
             viol.append(V(clause, None, obs, exp, soil=scn["soil"], dz=scn["dz"], zmax=scn["zmax"], iwc=scn["iwc"], sig=[clause], **f))
 
     ss = copy.deepcopy(all_soils("thorough")[scn["soil"]])
-    ss["dz"] = A.DZ[scn["dz"]] if ss["type"] != "ac_TunisLocal" else None
+    ss["dz"] = A.DZ[scn["dz"]] if (ss["type"] != "ac_TunisLocal" or scn["dz"] == "deep30") else None
     ss.setdefault("kw", {})
     nl = S.soil_nlayers(ss)
     if scn.get("restart"):
